@@ -178,6 +178,37 @@ def _header(stg, c, tmp, R):
                 rvb.record(stem, num_blocks=3, length_mode='num_blocks', header_dict={}, load_template=False, verbose=False)
             outs.append([(n_.split(':')[-1].replace(f'rr{period}_{world}_', ''), x) for n_, x in scen.hfiles(stem)])
         compare(R, outs[0], outs[1], 'second-recording-on-a-backend-differs-from-fresh-backend' + ('' if period == 1 else ':period!=1'), period=period)
+    # deterministic sources only (no noise, so no generator state to carry): the second recording made from an antenna / array
+    # equals the first recording of a fresh identical one whose clock was set to the same instant -- "antenna state" is its
+    # sources and its clock, nothing left over from the earlier recording (shared-background clocks, delay carry-over ...)
+    def quiet_world():
+        kw = dict(sample_rate=1e6, fch1=1e9, ascending=bool(c['seed'] % 2), num_pols=2, seed=c['seed'])
+        src_ = v.MultiAntennaArray(num_antennas=2, delays=[0, 3 + c['seed'] % 5], **kw) if c['array'] else v.Antenna(**kw)
+        sgn_ = 1 if kw['ascending'] else -1
+        if c['array']:
+            for q_, s_ in enumerate(src_.bg_streams):
+                s_.add_constant_signal(f_start=1e9 + sgn_ * (1e6 / 16) * (1.7 + q_), drift_rate=sgn_ * 3e5, level=0.8)
+        for a_i, an in enumerate(src_.antennas if c['array'] else [src_]):
+            for q_, s_ in enumerate(an.streams):
+                s_.add_constant_signal(f_start=1e9 + sgn_ * (1e6 / 16) * (2.3 + 0.4 * q_ + 0.2 * a_i), drift_rate=-sgn_ * 1e5, level=1.0)
+        rvb_ = v.RawVoltageBackend(src_, digitizer=v.RealQuantizer(num_bits=8), filterbank=v.PolyphaseFilterbank(num_taps=4, num_branches=16),
+                                   requantizer=v.ComplexQuantizer(num_bits=8), start_chan=1, num_chans=3,
+                                   block_size=(2 if c['array'] else 1) * 3 * 16 * 4, blocks_per_file=2, num_subblocks=2)
+        return rvb_, src_
+
+    def rec_(rvb_, name):
+        stem_ = os.path.join(tmp, name)
+        with common.quiet():
+            rvb_.record(stem_, num_blocks=3, length_mode='num_blocks', header_dict={}, load_template=False, verbose=False)
+        return [(n_.split(':')[-1].replace(name, 'X'), x) for n_, x in scen.hfiles(stem_)]
+    rA, sA = quiet_world()
+    rec_(rA, 'qa1')
+    t1 = sA.t_start
+    second = rec_(rA, 'qa2')
+    rB, sB = quiet_world()
+    sB.set_time(t1)
+    fresh = rec_(rB, 'qb1')
+    compare(R, second, fresh, 'noise-free-second-recording-differs-from-fresh-source-set-to-the-same-instant' + (':array' if c['array'] else ''))
     raw2 = getattr(v.RawVoltageBackend.record, '__verif_wrapped__', v.RawVoltageBackend.record)
     R.check(raw2.__defaults__ == defaults_before, 'record-default-arguments-changed', before=repr(defaults_before)[:200], after=repr(raw2.__defaults__)[:200])
     R.mark_nontrivial(True)
